@@ -21,9 +21,9 @@ Record tqd := { o_usable : bool; o_enter : option conn; o_enter_w : Z; o_exit : 
 Definition tqd_default : tqd :=
   {| o_usable := false; o_enter := None; o_enter_w := MAX_INT; o_exit := None; o_exit_w := MAX_INT |}.
 
-(* Connection::getMinWaitingTimeOrDefault(short): the request value is truncated to 16 bits *)
+(* Connection::getMinWaitingTimeOrDefault(int): the connection's own value when it has one, else the request's *)
 Definition minw_eff (p : params) (c : conn) : Z :=
-  if c_minw c >=? 0 then c_minw c else wrap16 (q_minw p).
+  if c_minw c >=? 0 then c_minw c else q_minw p.
 
 (* nodesAccess / nodesEgress are filled with emplace: the first row for a stop wins *)
 Fixpoint row_of (n : nat) (l : list fprow) : option fprow :=
@@ -207,7 +207,7 @@ Definition rev_fp_step (p : params) (k : calc) (c : conn) (minw : Z) (exitc : op
   if negb (Nat.eqb a m) && (taur m >? c_dep c - minw) then st
   else if fp_time r <=? q_maxtr p then
     let '(taur1, steps1) :=
-      if c_dep c - fp_time r - minw >=? taur m
+      if c_dep c - fp_time r - minw >? taur m
       then (upd taur m (c_dep c - fp_time r - minw),
             upd steps m (mk_js (Some c) exitc (c_trip c) (fp_time r) (Nat.eqb a m) (fp_dist r)))
       else (taur, steps) in
